@@ -21,8 +21,15 @@ def run(ctx):
     texts = []
     for _ in range(1500 if quick else 60000):
         texts.append(schematext.schema_text(r))
+    valid = set()
+    NSNAMES = ['NS', 'A::B', 'X__cedar', 'App__cedar_compat::v1', '__cedarx', 'in_', 'Stringy', 'a1::_b']
     for _ in range(200 if quick else 5000):
-        texts.append(schemagen.Schema(r).text())
+        t = schemagen.Schema(r).text()
+        if r.random() < 0.5:
+            # valid by construction, also inside a namespace (entity references in the generated text are unqualified and stay inside it)
+            t = 'namespace %s {\n%s}\n' % (r.choice(NSNAMES), t)
+        valid.add(len(texts))
+        texts.append(t)
     import props.c10 as c10
     texts.append(c10.SCHEMA_TEXT)
     for i, t in enumerate(texts):
@@ -55,7 +62,7 @@ def run(ctx):
             ents[e] = d
         acts = {a: {"appliesTo": {"principalTypes": r.sample(enames, 1), "resourceTypes": r.sample(enames, 1),
                                    "context": {"type": "Record", "attributes": {}}}} for a in r.sample(['view', 'x y', ''], r.randrange(1, 3))}
-        doc = {r.choice(['', 'NS']): {"entityTypes": ents, "actions": acts}}
+        doc = {r.choice(['', 'NS', 'X__cedar', 'App__cedar_compat::v1', 'A::B']): {"entityTypes": ents, "actions": acts}}
         cases.append('(case j%d schemacodec json %s)' % (i, S(_json.dumps(doc))))
     ctx.rule = ('random schema texts over 1-2 namespaces with 1-3 entity types (names incl. String / Long / ipaddr / Set / in), enums, 0-2 common '
                 'types (possibly cyclic, undefined or shadowing builtins), nested records with optional attributes and attribute names that need '
@@ -69,6 +76,12 @@ def run(ctx):
         k = res.split(' ')[0] + (' ' + res.split(' ')[1].rstrip(')') if res.startswith('(ok') or res.startswith('(problem') else '')
         hist[k] = hist.get(k, 0) + 1
         ctx.count(c[:3000], res == '(ok resolved)')
+        if res.startswith('(parse-error') and lib.case_id(c)[0] == 'c' and lib.case_id(c)[1:].isdigit() and int(lib.case_id(c)[1:]) in valid:
+            bad += 1
+            if bad <= 6:
+                ctx.violation('a schema text that is valid by construction was rejected: ' + res[:300] + '\nSOURCE:\n' +
+                              sx.unS(c.split(' ')[4].rstrip(')')).decode('utf-8', 'replace')[:600], dict(kind='case', case=c, go=res[:3000]))
+            continue
         if res.startswith('(ok') or res.startswith('(parse-error'):
             continue
         name = res.split(' ')[1].rstrip(')') if res.startswith('(problem') else res
